@@ -205,6 +205,14 @@ theorem C12_packet_errc_closes (inp : Pipe.Input) (s : Pipe.Sys) (h : Pipe.Reach
   C07.C07_errc_closes_after_cancel inp s h hc
 
 
+/-- packet pipeline: whenever (and however often) the cancellation comes, the goroutines of the pipeline take at most
+    `22·|requests| + 4·|receiver errors| + 4·N + 13` steps in all — none of them can spin after a cancellation (or
+    before): every loop iteration consumes something that is not replenished -/
+theorem C12_packet_steps_bounded (inp : Pipe.Input) (evs : List Pipe.Event) (s : Pipe.Sys)
+    (h : Pipe.run C07.cfg inp (Pipe.init inp) evs = some s) :
+    Pipe.nonCancel evs ≤ 22 * inp.reqs.length + 4 * inp.rcvErrs.length + 4 * inp.n + 13 :=
+  C07.C07_steps_bounded inp evs s h
+
 /-- (T) the capture source follows the lock protocol of `Model/CaptureSource.lean`: `Close` = lock, deferred unlock,
     `closed = true`, unmap; one read = lock, EOF if closed, read-and-copy, unlock (regenerated from
     pkg/packet/afpacket/readwriter.go) -/
